@@ -208,6 +208,25 @@ func randVariant(name string) io.Reader {
 	return nil
 }
 
+// pairReader answers every read of exactly K bytes (the GREASE seed read) with random bytes in which the low bytes of
+// the two 16-bit little-endian seeds I1 and I2 select the nibbles N1 and N2: run over all 256 (N1, N2) it makes the
+// enumeration of the two GREASE extension values exhaustive instead of sampled. Other reads are plain randomness.
+type pairReader struct {
+	K, I1, I2 int
+	N1, N2    byte
+}
+
+func (r *pairReader) Read(p []byte) (int, error) {
+	if _, err := io.ReadFull(rand.Reader, p); err != nil {
+		return 0, err
+	}
+	if len(p) == r.K && 2*r.I1 < len(p) && 2*r.I2 < len(p) {
+		p[2*r.I1] = r.N1<<4 | p[2*r.I1]&0x0f
+		p[2*r.I2] = r.N2<<4 | p[2*r.I2]&0x0f
+	}
+	return len(p), nil
+}
+
 type gCase struct {
 	ID   string `json:"id"`
 	// parrot | fingerprint | constrand: every connection gets its own spec (selected by ID / imported afresh);
@@ -224,6 +243,8 @@ type gCase struct {
 	// bytes (and, with shape, the GREASE entries of cipher_suites / supported_groups / supported_versions moved to the end
 	// of their lists and a second GREASE group added) - used directly (a fresh spec per connection, or one object for all),
 	// or captured on the wire and imported back through FingerprintClientHello / through its JSON description.
+	I1     int  `json:"i1"` // pairrand: seed indices of the two GREASE extensions; connection j uses nibbles (j/16, j%16)
+	I2     int  `json:"i2"`
 	KSBody int  `json:"ksbody"`
 	Shape  bool `json:"shape"`
 	Rand string `json:"rand"` // Config.Rand of every connection: "" (library default) | full | onebyte | chunks
@@ -313,6 +334,8 @@ func init() {
 				cfg := &tls.Config{ServerName: c.SNI, OmitEmptyPsk: true}
 				if c.Mode == "constrand" {
 					cfg.Rand = &constReader{B: byte(c.B0 + j), K: c.K}
+				} else if c.Mode == "pairrand" {
+					cfg.Rand = &pairReader{K: c.K, I1: c.I1, I2: c.I2, N1: byte(j/16) & 15, N2: byte(j % 16)}
 				} else if r := randVariant(c.Rand); r != nil {
 					cfg.Rand = r
 				}
